@@ -674,5 +674,23 @@ seed("c04-enh-default-drops-4", "C04", "R-enh-default", "conn.go",
 			enhCode = EnhancedCode{cat, 0, 0}""", """		case 2, 5:
 			enhCode = EnhancedCode{cat, 0, 0}""", "4xx replies without explicit code lose the enhanced code")
 
+seed("c03-mail-clears-recipients", "C03", "R-state-set-on-success", "conn.go",
+"""	c.writeResponse(250, EnhancedCode{2, 0, 0}, fmt.Sprintf("Roger, accepting mail from <%v>", from))
+	c.fromReceived = true""", """	c.writeResponse(250, EnhancedCode{2, 0, 0}, fmt.Sprintf("Roger, accepting mail from <%v>", from))
+	c.fromReceived = true
+	c.recipients = nil""", "nested MAIL forgets the recipients without Reset")
+seed("c08-giveup-without-close", "C08", "R-giveup-closes", "conn.go",
+"""func (c *Conn) Reject() {
+	c.writeResponse(421, EnhancedCode{4, 4, 5}, "Too busy. Try again later.")
+	c.Close()""", """func (c *Conn) Reject() {
+	c.writeResponse(421, EnhancedCode{4, 4, 5}, "Too busy. Try again later.")""", "421 without closing")
+seed("c19-regexp-multibyte-class", "C19", "R-const-index-guarded", "conn.go",
+"""[[:cntrl:] \\\\+=]`)""", """[\\p{Cc} \\\\+=]`)""", "two-octet control characters reach the slicing callback")
+seed("c04-reset-keeps-total", "C04", "R-reset-effects", "conn.go",
+"""	c.bdatStatus = nil
+	c.bytesReceived = 0
+
+	if c.session != nil {""", """	if c.session != nil {""", "per-message BDAT state survives reset")
+
 json.dump(S, open(os.path.join(os.path.dirname(os.path.abspath(__file__)), "bank.json"), "w"), indent=1)
 print(len(S), "seeds")
